@@ -64,7 +64,7 @@ class Facet:
     rule: str
     quick: int = 200  # examples per shard
     thorough: int = 1000
-    quick_shards: int = 4
+    quick_shards: int = 8
     thorough_shards: int = 16
     budget_quick: float = 60.0  # seconds per shard
     budget_thorough: float = 600.0
@@ -174,9 +174,10 @@ def run_shard(args: tuple) -> dict:
 
     try:
         if enum_slice is not None:
-            cases = facet.enumerate(tier)  # type: ignore[misc]
+            import itertools
+
             lo, step = enum_slice
-            for case in cases[lo::step]:
+            for case in itertools.islice(facet.enumerate(tier), lo, None, step):  # type: ignore[misc]
                 one(case)
                 if st["budget_exhausted"]:
                     break
